@@ -18,12 +18,13 @@ RULE = ("worlds as C07 but estimator and uninterrupted charging off, unequal vol
         "inconclusive; non-trivial = call with >=2 constraints binding and >=3 active sessions; distinct = history signature")
 PROBES = ["greedy_call_checked", "rr_call_checked", "uncontrolled_call_checked", "tie_inconclusive", "guard_inconclusive",
           "bisection_used", "ub_granted", "finite_level_lowered", "two_constraints_binding", "eps_probe", "order_matters",
-          "rr_blocked_session"]
-FAULT_DIMENSION = "none - reached-state distribution only"
+          "rr_blocked_session", "call_after_reconfig"]
+FAULT_DIMENSION = ("environment fault only: the operator changes a constraint limit between two periods of the run "
+                   "(ChargingNetwork.update_constraint); otherwise reached-state distribution")
 ASSUMPTIONS = ["priority keys pairwise distinct (else the call is inconclusive)",
                "feasibility decided with the algorithms' hard-wired tolerances 1e-5 / 1e-7; guard band 1e-9*max(1,limit)",
                "bisection tolerance of the greedy algorithm is its hard-wired 0.01 A; other tolerances via max_feasible_rate(eps=...) probes"]
-PROFILE = world.profile(constraints={"three": 6, "single": 1}, binding=(0.15, 0.8), evse_kinds={"cont": 3, "finite": 3},
+PROFILE = world.profile(reconfig=0.3, constraints={"three": 6, "single": 1}, binding=(0.15, 0.8), evse_kinds={"cont": 3, "finite": 3},
                         party={"greedy": 4, "rr": 2, "uncontrolled": 1}, estimator={"none": 1}, uninterrupted=0.0,
                         hot=0.1, b2b=0.2, stations=(3, 8), demand=(0.05, 1.6), heterovolt=0.9, rr_inc=[0.5, 1, 3],
                         horizon=(4, 20), noise=0.1, chain_fill=(0.5, 1.0))
@@ -107,7 +108,6 @@ def check(sc):
     pre = Outcome()
     ids = [s["id"] for s in sc["network"]["stations"]]
     phases = [s["phase"] for s in sc["network"]["stations"]]
-    cons = cons_of(sc)
     state = {"n": 0}
 
     def setup(ctx, party):
@@ -116,6 +116,7 @@ def check(sc):
 
         def post(party_, iface, rec, sched):
             # eps probe on the state of the moment: call the public static max_feasible_rate for other tolerances
+            cons = cons_of(sc, rec["t"])
             if state["n"] >= 3 or not cons:
                 return
             r = sub(sc["seed"], "eps", rec["t"])
@@ -162,6 +163,9 @@ def check(sc):
             continue
         t = c["t"]
         sch = c["schedule"]
+        cons = cons_of(sc, t)
+        if any(r["t"] <= t for r in sc.get("reconfig", ())):
+            out.probe("call_after_reconfig")
         truth = truth_sessions(sc, tr, t)
         if any(abs(x["remaining"] - 1e-3) < 1e-9 for x in truth):
             out.inconclusive += 1
